@@ -13,18 +13,13 @@ import GraphSlam.Model.NumJac
   sum <hexfloat>*                        Model.graphChi2 (Python `sum`) at Float
   asm <graph snapshot>                   Model.contribs / accumulate / fillGradient / fillHessian (see Driver/Asm.lean)
   iter <typed graph> <dx>                Model.step: one whole iteration on a typed graph (see Driver/Iter.lean)
+  run <tol> <maxIter> <typed graph> <dx>* Model.optimizeRun: a whole optimize() call (see Driver/Iter.lean)
   fixedidx <ffp> <n> <flag>*n <gidx>*n   flags after fix_first_pose and the fixed gradient-index set (graph.py:429-433)
   fd <eps> <m> <err0>*m <errd>*m         Model.fdColumn: one column of the numerical Jacobian
   ctl <tol> <eps> <maxIter> <chi2>*      Model.optimizeCtl: the report of Graph.optimize from the chi2 sequence
 -/
 
 open Driver
-
-def fmtOpt (x : Option Float) : String := match x with | some v => fmtFloat v | none => "none"
-
-def fmtReport (r : GraphSlam.Model.Report Float) : String :=
-  let its := r.iters.map fun it => s!"{fmtOpt it.chi2}:{fmtOpt it.relDiff}:{if it.complete then 1 else 0}"
-  s!"conv={if r.converged then 1 else 0} n={match r.numIterations with | some k => toString k | none => "none"} init={fmtOpt r.initialChi2} final={fmtOpt r.finalChi2} iters={",".intercalate its}"
 
 def handle (line : String) : String :=
   match (line.trimAscii.toString.splitOn " ").filter (· ≠ "") with
@@ -48,6 +43,7 @@ def handle (line : String) : String :=
     | _, _, _, _ => "err bad-args"
   | "asm" :: rest => handleAsm rest
   | "iter" :: rest => handleIter rest
+  | "run" :: rest => handleRun rest
   | "fixedidx" :: ffp :: n :: rest =>
     -- head of optimize(): flags' = applyFixFirst ffp flags ; fixed index set = indices of flagged vertices
     match n.toNat?, (rest.mapM String.toNat?) with
